@@ -309,6 +309,23 @@ func (client *client) writeLoop() {
 	for {
 		select {
 		case <-client.close:
+			// setError and sendErrConnack queue the DISCONNECT/CONNACK packet before client.close is closed, do not lose it.
+		flush:
+			for {
+				select {
+				case packet := <-client.out:
+					switch packet.(type) {
+					case *packets.Disconnect, *packets.Connack:
+						if err = client.writePacket(packet); err == nil {
+							srv.statsManager.packetSent(packet, client.opts.ClientID)
+						}
+					}
+				default:
+					break flush
+				}
+			}
+			// the connection is dead for the broker, do not leave it open until the client closes it.
+			_ = client.rwc.Close()
 			return
 		case packet := <-client.out:
 			switch p := packet.(type) {
